@@ -354,7 +354,9 @@ func CheckC07(r *Run) int {
 	}, optsE)
 	r.Absorb("H_C07_import_boundary", st, "an imported file defines a function whose name is 1..3 symbolic bytes (first over \"aAmMzZ_\"); the main file calls it through the alias at top level / inside a function: accepted iff the first byte is an upper-case letter (sha256 of the symbolic file is stubbed by a constant)")
 	// paths of harness E that the engine cannot interpret are decided by one native run each
-	sort.SliceStable(probes, func(i, j int) bool { return probes[i].Src+probes[i].Extra["lib.tsh"] < probes[j].Src+probes[j].Extra["lib.tsh"] })
+	sort.SliceStable(probes, func(i, j int) bool {
+		return probes[i].Src+probes[i].Extra["lib.tsh"] < probes[j].Src+probes[j].Extra["lib.tsh"]
+	})
 	probed := 0
 	for _, pb := range probes {
 		if probed >= 60 {
